@@ -1,0 +1,76 @@
+//go:build verif
+
+// Contracts for the deductive verifier in /verif (govc). Only compiled with -tags verif.
+
+package timeutil
+
+// ---- windows ------------------------------------------------------------------------
+
+//@ func (ScheduleWindow).Includes
+//@   props C16
+//@   ensures result == (!t.Before(s.Start) && !t.After(s.End))
+
+//@ func (ScheduleWindow).IsZero
+//@   props C16
+//@   ensures result == (s.Start.IsZero() || s.End.IsZero())
+
+// Clock.Time is time.Date on the day of base: no calendar model, an uninterpreted function of
+// the clock and the base instant.
+
+//@ func (Clock).Time
+//@   opaque
+//@   reads nothing
+
+//@ func (ClockSpan).Window
+//@   props C16
+//@   ensures result.Start.Equal(ts.Start.Time(t)) && result.Spread == ts.Spread
+//@   ensures result.End.Equal(ite(ts.End.Time(t).Before(ts.Start.Time(t)), ts.End.Time(t).Add(24*time.Hour), ts.End.Time(t)))
+//@   ensures [ordered] !ts.End.Time(t).Add(24*time.Hour).Before(ts.Start.Time(t)) ==> !result.End.Before(result.Start)
+
+// ---- random spread ---------------------------------------------------------------------
+
+//@ func randDur
+//@   props C16
+//@   ensures 0 <= result
+//@   ensures b.Sub(a) <= 0 ==> result == 0
+//@   ensures 0 < b.Sub(a) && b.Sub(a) <= 5*time.Minute ==> result < b.Sub(a)
+//@   ensures b.Sub(a) > 5*time.Minute ==> result < b.Sub(a) - 5*time.Minute
+
+// ---- the next window of one schedule -----------------------------------------------------
+
+//@ define isWindowOf(sp ClockSpan, t time.Time, w ScheduleWindow) = w.Start.Equal(sp.Start.Time(t)) && w.Spread == sp.Spread && w.End.Equal(ite(sp.End.Time(t).Before(sp.Start.Time(t)), sp.End.Time(t).Add(24*time.Hour), sp.End.Time(t)))
+
+//@ func (*Schedule).Next
+//@   props C16
+//@   ensures [not-past] !result.End.Before(final(now))
+//@   ensures [not-last] last.IsZero() || last.Before(result.Start) || last.After(result.End)
+//@   ensures [day] !final(t).Before(last) && final(t).Sub(last) % (24*time.Hour) == 0
+//@   ensures [of-timer] (result.Start.IsZero() && result.End.IsZero()) || exists k int :: 0 <= k && k < len(final(tspans)) && isWindowOf(final(tspans)[k], final(t), result)
+//@   loop 0: invariant !t.Before(last) && t.Sub(last) % (24*time.Hour) == 0
+//@   loop 2: invariant -1 <= idx2 && idx2 < len(tspans)
+//@   loop 2: invariant (window.Start.IsZero() && window.End.IsZero()) || exists k int :: 0 <= k && k <= idx2 && isWindowOf(tspans[k], t, window)
+//@   loop 2: invariant (window.Start.IsZero() && window.End.IsZero()) || (!window.End.Before(now) && (last.Before(window.Start) || last.After(window.End)))
+
+// ---- the next event ---------------------------------------------------------------------
+
+// delay from now to the next event: the chosen window starts no later than last+maxDuration,
+// an open window means now, otherwise the delay ends at the window start (plus the random spread
+// inside the window, 5 minutes short of its end)
+
+//@ func Next
+//@   props C16
+//@   ensures result >= 0
+//@   ensures [limit] !final(window).Start.After(last.Add(maxDuration))
+//@   ensures [open] final(window).Start.Before(final(now)) ==> result == 0
+//@   ensures [exact] !final(window).Start.Before(final(now)) && !final(window).Spread ==> final(now).Add(result).Equal(final(window).Start)
+//@   ensures [nospread-limit] !final(window).Spread ==> result == 0 || !final(now).Add(result).After(last.Add(maxDuration))
+//@   ensures [spread-lo] !final(window).Start.Before(final(now)) ==> !final(now).Add(result).Before(final(window).Start)
+//@   ensures [spread-hi] !final(window).Start.Before(final(now)) && final(window).Spread && final(window).End.After(final(window).Start) ==> final(now).Add(result).Before(final(window).End)
+//@   ensures [spread-hi5] !final(window).Start.Before(final(now)) && final(window).Spread && final(window).End.Sub(final(window).Start) > 5*time.Minute ==> final(now).Add(result).Before(final(window).End.Add(-5*time.Minute))
+//@   ensures [spread-empty] !final(window).Start.Before(final(now)) && !final(window).End.After(final(window).Start) ==> final(now).Add(result).Equal(final(window).Start)
+//@   ensures [not-last] maxDuration > 0 && !last.IsZero() ==> last.Before(final(window).Start) || last.After(final(window).End)
+//@   ensures [fallback] final(window).Start.Before(last.Add(maxDuration)) || (final(window).Start.Equal(last.Add(maxDuration)) && final(window).End.Equal(last.Add(maxDuration).Add(time.Hour)) && !final(window).Spread)
+//@   loop 0: invariant -1 <= idx0 && idx0 < len(schedule)
+//@   loop 0: invariant !window.Start.After(last.Add(maxDuration))
+//@   loop 0: invariant maxDuration > 0 && !last.IsZero() ==> last.Before(window.Start) || last.After(window.End)
+//@   loop 0: invariant window.Start.Before(last.Add(maxDuration)) || (window.Start.Equal(last.Add(maxDuration)) && window.End.Equal(last.Add(maxDuration).Add(time.Hour)) && !window.Spread)
